@@ -49,7 +49,31 @@ def r141(ctx) -> None:
     rem = [n for n, r, k, w in sites if k == 'expunge' and r == 'self']
     ins = [n for n, r, k, w in sites if k == 'update' and r != 'self']
     if not rem or not ins:
-        raise AnchorError('dict move: removal or insertion site not found')
+        R.fail(f, f.node, 'dict move: the message is TAKEN out of the source '
+               'by the read that yields it',
+               'move() contains no removing read of self._messages (pop '
+               'under the source write lock) feeding an insert into the '
+               'destination: looking the message up and removing it in '
+               'separate critical sections lets two sessions move (or one '
+               'move and one expunge) the same message — it ends up in two '
+               'mailboxes, or reappears after EXPUNGE')
+        return
+    # the inserted object derives from the removing read
+    pops = {t.id for n_, r_, k_, w_ in sites if k_ == 'expunge'
+            for t in targets_of(n_.stmt) if isinstance(t, ast.Name)} \
+        if rem else set()
+    flows = any(pops & {x.id for x in ast.walk(n_.stmt)
+                        if isinstance(x, ast.Name)}
+                or any(pops & {y.id for _, v in local_assigns(f, nm)
+                               if v is not None for y in ast.walk(v)
+                               if isinstance(y, ast.Name)}
+                       for nm in {x.id for x in ast.walk(n_.stmt)
+                                  if isinstance(x, ast.Name)})
+                for n_ in ins)
+    R.check(flows or not pops, f, f.node, 'dict move: the inserted message '
+            'derives from the removing read',
+            'what is inserted into the destination is not the object popped '
+            'from the source')
     model = SuspModel(ctx.proj, [DICT])
     real = model.real_nodes(f, cfg)
     # insertion before removal is always fine
@@ -118,13 +142,19 @@ def r142(ctx) -> None:
                 [t for s in loop.body for t in ast.walk(s)
                  if isinstance(t, ast.Try)]
         ok = False
+        narrow_note = False
         for t in tries:
             for h in t.handlers:
-                broad = h.type is None or txt(h.type) in (
-                    'BaseException', 'Exception') or (
-                    isinstance(h.type, ast.Tuple) and any(
-                        txt(e) in ('BaseException', 'Exception')
-                        for e in h.type.elts))
+                # task cancellation (asyncio.CancelledError) is a
+                # BaseException: `except Exception` does not see it
+                names = ['BaseException'] if h.type is None else (
+                    [txt(e).split('.')[-1] for e in h.type.elts]
+                    if isinstance(h.type, ast.Tuple)
+                    else [txt(h.type).split('.')[-1]])
+                broad = 'BaseException' in names or (
+                    'Exception' in names and 'CancelledError' in names)
+                if 'Exception' in names and not broad:
+                    narrow_note = True
                 undo = any(call_name(c) == 'delete'
                            and txt(c.func.value) == mbx
                            for s in h.body for c in calls_in(s))
@@ -139,9 +169,12 @@ def r142(ctx) -> None:
                 'each iteration stores one message persistently and a later '
                 'iteration can fail (content parsing / thread keys raise on '
                 'hostile content; cancellation), but no handler removes the '
-                'messages already stored: MULTIAPPEND (good, bad) ends '
-                'without OK and the first message stays in the mailbox '
-                '(RFC 3502: all or nothing)',
+                'messages already stored (a handler for `Exception` alone '
+                'does not run on task cancellation, which is a '
+                'BaseException): MULTIAPPEND (good, bad) — or a client '
+                'disconnect after the first message — ends without OK and '
+                'the first message stays in the mailbox (RFC 3502: all or '
+                'nothing)',
                 'handler deletes the stored prefix and re-raises')
     if not found:
         raise AnchorError('append_messages: append loop not found')
